@@ -50,6 +50,9 @@ func (f Fault) String() string {
 	if f.Chunked {
 		s += "/chunked"
 	}
+	if f.CT == "-" {
+		s += "/no-ct"
+	}
 	return s
 }
 
@@ -158,6 +161,9 @@ func (f *FW) answer(i int, r *backend.Record) *backend.Resp {
 	}
 	origin := fmt.Sprintf("%d|%03d", i, a%1000)
 	hdr := [][2]string{{"Content-Type", ct}, {"X-Origin", origin}, {"X-Attempt-" + strconv.Itoa(i), strconv.Itoa(a)}}
+	if ct == "-" { // a backend that declares no content type
+		hdr = hdr[1:]
+	}
 	resp := &backend.Resp{Status: 200 + i, Headers: hdr, Body: body, Chunked: ft.Chunked, MaxStall: 1500 * time.Millisecond}
 	at.Status = resp.Status
 	switch ft.Kind {
